@@ -328,6 +328,13 @@ class FnDep:
         elif callee and t.get('callee_local') and callee in self.eng.prog.bodies and not t.get('trait'):
             target = callee
         if target is not None and target != self.body.path:
+            if self.eng.modular and self.eng.modular_helper(target) and len(t['args']) == 3:
+                # an audited modular division `divm(a, b, m)`: a function of a mod m and b mod m (see Engine.modular_helper)
+                per, _m = self._arg_atoms_and_muts(t['args'])
+                res = set()
+                for i, s_ in enumerate(per[:3]):
+                    res |= {compose('mod' if i < 2 else 'nr', a) for a in s_}
+                return self.write_place(t['dst'], res)
             summ = self.eng.summary(target)
             if summ is not None:
                 return self._apply_summary(t, summ)
@@ -347,12 +354,12 @@ class FnDep:
                         if st[0] == 'p' and st[1] == 1:
                             k = st[2][0] if st[2] else None
                             if k is not None and str(k).isdigit() and int(k) < len(ci[1]):
-                                res |= self.read_op(ci[1][int(k)])
+                                res |= rewrap(a, self.read_op(ci[1][int(k)]))
                             else:
                                 for c in ci[1]:
-                                    res |= self.read_op(c)
+                                    res |= rewrap(a, self.read_op(c))
                         elif st[0] == 'p':
-                            res |= recv
+                            res |= rewrap(a, recv)
                         else:
                             res.add(a)
                 muts = []
@@ -375,6 +382,12 @@ class FnDep:
                 return self.write_place(t['dst'], res)
         # external (or unresolvable) call
         per, muts = self._arg_atoms_and_muts(t['args'])
+        if self.eng.modular:
+            cls = modular_class(t)
+            if cls == 'absorb':
+                per = [{compose('mod' if i == 0 else 'nr', a) for a in s} for i, s in enumerate(per)]
+            elif cls != 'ring':
+                per = [{compose('h' if cls == 'hash' else 'nr', a) for a in s} for s in per]
         allat = set()
         for s in per:
             allat |= s
@@ -436,6 +449,8 @@ class FnDep:
                         out |= self.read(r2, p2)
                 return out
             return self.const_atoms(arg)
+        if a[0] in LABELS:
+            return {compose(a[0], x) for x in self._inst_atom(a[1], args)}
         if a[0] in ('len', 'narrow'):
             inner = self._inst_atom(a[1], args)
             return {(a[0], x) if x[0] not in ('len', 'narrow') or a[0] == 'narrow' else x for x in inner} \
@@ -468,6 +483,8 @@ class FnDep:
             return self.write_place(dst, at)
         if k == 'binop':
             at = self.read_op(rv['a']) | self.read_op(rv['b'])
+            if self.eng.modular and not rv['op'].startswith(('Add', 'Sub', 'Mul')):
+                at = {compose('nr', a) for a in at}
             if rv['op'] in NARROW_BINOPS:
                 at = {('narrow', a[1]) if a[0] == 'len' else a for a in at}
             return self.write_place(dst, at)
@@ -608,12 +625,33 @@ class Engine:
             return callee
         return None
 
-    def __init__(self, prog):
+    def __init__(self, prog, modular=False):
         self.prog = prog
+        self.modular = modular      # label every dependence on a parameter with how it treats residue classes (see `label_of`)
         self._fd = {}
         self._summ = {}
         self._inprogress = set()
         self._cia = {}
+        self._modh = {}
+
+    # the operations the audited shape of `divm(a, b, m)` = a / b mod m consists of: invert b; when that fails divide a, b and m by gcd(a, b, m)
+    # and invert again; multiply and reduce.  gcd(a, b, m) and b / gcd mod (m / gcd) depend on b mod m only, which the label algebra cannot see
+    # (gcd and exact division are not ring operations), so the helper is taken as a reduction of its first two arguments - but only while its
+    # body consists of exactly these operations; any other body is analysed like every other function.
+    DIVM_OPS = {'std::clone::Clone::clone', 'rug::Integer::invert_ref', 'std::option::Option::<T>::is_none', 'rug::Integer::gcd_ref', 'rug::Integer::gcd_mut',
+                'rug::Integer::div_exact_ref', 'std::convert::From::from', 'std::option::Option::<T>::unwrap', 'std::ops::Mul::mul', 'std::ops::Rem::rem',
+                'core::panicking::panic_fmt', 'std::fmt::Arguments::<\'a>::from_str', 'std::fmt::Arguments::<\'a>::new_const'}
+
+    def modular_helper(self, path):
+        if path in self._modh:
+            return self._modh[path]
+        ok = False
+        b = self.prog.bodies.get(path)
+        if b is not None and path.split('::')[-1] == 'divm' and b.arg_count == 3:
+            cs = {t.get('callee') or '' for bi, t in b.calls()}
+            ok = cs <= self.DIVM_OPS and {'rug::Integer::invert_ref', 'std::ops::Rem::rem'} <= cs
+        self._modh[path] = ok
+        return ok
 
     def fndep(self, path):
         if path in self._fd:
@@ -656,9 +694,78 @@ class Engine:
 
 
 def strip(a):
-    while a[0] in ('len', 'narrow'):
+    while a[0] in ('len', 'narrow', 'nr', 'mod', 'h'):
         a = a[1]
     return a
+
+
+# ---------------------------------------------------------------------------------- representative labels (Engine(prog, modular=True) only)
+# How a value depends on a parameter when the parameter stands for a residue class:
+#   bare atom      R  through ring operations only (+, -, *, copies): v mod n is a function of x mod n, v itself is not
+#   ('nr', atom)   N  through some other operation (an exponent, a division, a conversion, a comparison ..): v depends on the representative of x
+#   ('mod', atom)  M  through a reduction (`% n`, the base of pow_mod, invert) applied to a ring expression: v depends on x mod n only
+#   ('h', atom)    H  through a digest: v depends on the representative, and only by way of the hash
+# M, H are sticky; a reduction only turns R into M.
+LABELS = ('nr', 'mod', 'h')
+
+
+def label_of(a):
+    """'R' | 'N' | 'M' | 'H' for an atom of the modular engine (lengths count as N)"""
+    if a[0] == 'mod':
+        return 'M'
+    if a[0] == 'h':
+        return 'H'
+    if a[0] in ('nr', 'len', 'narrow'):
+        return 'N'
+    return 'R'
+
+
+def compose(outer, a):
+    """the atom `a` seen through a dependence labelled `outer` ('nr' | 'mod' | 'h' | None)"""
+    if outer is None or strip(a)[0] != 'p' or a[0] in ('len', 'narrow'):
+        return a
+    if a[0] == 'mod' or a[0] == 'h':
+        return a
+    if a[0] == 'nr':
+        return ('h', a[1]) if outer == 'h' else a
+    return (outer, a)
+
+
+def rewrap(orig, atoms):
+    """atoms substituted for the base of `orig`, seen through the labels `orig` carried"""
+    outs = []
+    a = orig
+    while a[0] in ('len', 'narrow', 'nr', 'mod', 'h'):
+        if a[0] in LABELS:
+            outs.append(a[0])
+        a = a[1]
+    if not outs:
+        return set(atoms)
+    out = set(atoms)
+    for o in reversed(outs):
+        out = {compose(o, x) for x in out}
+    return out
+
+
+MOD_ABSORB0 = ('rug::Integer::pow_mod', 'rug::Integer::pow_mod_ref', 'rug::Integer::pow_mod_mut', 'rug::Integer::secure_pow_mod',
+               'rug::Integer::secure_pow_mod_ref', 'rug::Integer::secure_pow_mod_mut', 'rug::Integer::invert', 'rug::Integer::invert_ref',
+               'rug::Integer::invert_mut', 'rug::Integer::modulo', 'rug::Integer::modulo_ref', 'rug::Integer::modulo_mut',
+               'std::ops::Rem::rem', 'std::ops::RemAssign::rem_assign', 'rug::ops::RemRounding::rem_euc', 'rug::ops::RemRounding::rem_floor')
+MOD_RING = ('std::ops::Add::add', 'std::ops::Sub::sub', 'std::ops::Mul::mul', 'std::ops::Neg::neg', 'std::ops::AddAssign::add_assign',
+            'std::ops::SubAssign::sub_assign', 'std::ops::MulAssign::mul_assign', 'rug::Complete::complete', 'std::clone::Clone::clone',
+            'std::convert::From::from', 'std::convert::Into::into', 'std::borrow::ToOwned::to_owned', 'rug::Assign::assign',
+            'rug::ops::NegAssign::neg_assign', 'std::iter::Sum::sum', 'std::iter::Product::product')
+
+
+def modular_class(t):
+    name = t.get('callee') or ''
+    if name in MOD_ABSORB0:
+        return 'absorb'
+    if name.startswith(('digest::', 'sha2::', 'sha3::')) or '::Digest::' in name or name.endswith(('Update::update', 'Update::chain')):
+        return 'hash'
+    if name in MOD_RING or name in ALIAS_CALLS:
+        return 'ring'
+    return 'other'
 
 
 def covers(atoms, req):
@@ -678,7 +785,7 @@ def fmt_atom(body, a):
     if a[0] == 'p':
         s = body.local_name(a[1]) if body is not None else 'p%d' % a[1]
         return s + ''.join('.' + x for x in a[2])
-    if a[0] in ('len', 'narrow'):
+    if a[0] in ('len', 'narrow', 'nr', 'mod', 'h'):
         return '%s(%s)' % (a[0], fmt_atom(body, a[1]))
     if a[0] == 'a':
         return a[1].split('::')[-1]
